@@ -152,8 +152,15 @@ func main() {
 		}
 		if !c.Done {
 			tail := c.StderrTail(6000)
-			rep.Violation("C02:fatal:"+fatalSite(tail)+":"+cs.Cfg.class(), fmt.Sprintf("child %s died (exit=%d signal=%q) while executing database operations", c.Name, c.Exit, c.Signal),
-				map[string]any{"mode": cs.Mode, "cfg": cs.Cfg, "child_spec": cs, "stderr_tail": tail})
+			d := map[string]any{"mode": cs.Mode, "cfg": cs.Cfg, "child_spec": cs, "stderr_tail": tail}
+			// the history the child was executing when it died (replayable on its own)
+			if hj, err := os.ReadFile(filepath.Join(c.Dir, "current_history.json")); err == nil {
+				d["history_json"] = string(hj)
+			}
+			if st, err := os.ReadFile(filepath.Join(c.Dir, "current_step")); err == nil {
+				d["last_operation_started"] = string(st)
+			}
+			rep.Violation("C02:fatal:"+fatalSite(tail)+":"+cs.Cfg.class(), fmt.Sprintf("child %s died (exit=%d signal=%q) while executing database operations", c.Name, c.Exit, c.Signal), d)
 		}
 	})
 
@@ -212,6 +219,8 @@ func finish(cfg vlib.Cfg, rep *vlib.Report) {
 		rep.Floor(rep.Counter("wide_histories/"+be) >= 1, "wide histories (queries over 150-400 keys) on %s: %d", be, rep.Counter("wide_histories/"+be))
 	}
 	rep.Floor(rep.Counter("query_records_max") >= 150, "largest query result: %d records", rep.Counter("query_records_max"))
+	rep.Floor(rep.Counter("form/estruct") >= 300 && rep.Counter("nil_embedded_pointer_records") >= 5, "typed records with fields promoted from embedded structs: %d (with nil embedded pointer: %d)",
+		rep.Counter("form/estruct"), rep.Counter("nil_embedded_pointer_records"))
 	rep.Floor(rep.Counter("query_consume/stall") >= 8, "queries with a stalling consumer: %d", rep.Counter("query_consume/stall"))
 	rep.Floor(rep.Counter("stall_truncated_with_error") >= 2, "stalled queries that the executor gave up on (truncated, with error): %d", rep.Counter("stall_truncated_with_error"))
 	for _, m := range []string{"buffer", "slow", "prompt"} {
@@ -280,7 +289,10 @@ func childMain(dir string) {
 	b.Finish(dir)
 }
 
+var childDir string
+
 func childHist(dir string, cs childSpec, b *vlib.Batch) {
+	childDir = dir
 	root := filepath.Join(dir, "dbroot")
 	if err := database.InitializeWithPath(root); err != nil {
 		b.Inconclusive("cannot initialise database system: %v", err)
@@ -346,6 +358,11 @@ func runHistory(cs childSpec, b *vlib.Batch, h *history, n int) bool {
 		return false
 	}
 	b.Max("cache_size_max", int64(opts.CacheSize))
+	if childDir != "" {
+		// journal: if the process dies inside portbase, the orchestrator names the history
+		hj, _ := json.Marshal(h)
+		_ = os.WriteFile(filepath.Join(childDir, "current_history.json"), hj, 0o644)
+	}
 	done := make(chan struct{})
 	go func() {
 		defer close(done)
